@@ -17,5 +17,9 @@ CHECK = {
         "conc": {"pkg": "internal/cache", "run": "TestVerifC16Conc", "harness": ["internal/cache"],
                  "rewrite": {"internal/cache": ["sync", "sync/atomic"]}, "race_pass": True, "gomaxprocs": 1,
                  "budget_s": {"quick": 60, "thorough": 420}},
+        # the per-client limiter store (another table of the property's list): map semantics under schedules
+        "limiter": {"pkg": "middleware/ratelimit", "run": "TestVerifC16Limiter", "harness": {"middleware/ratelimit": ["zz_verif_c16_limiter_test.go"]},
+                    "rewrite": {"middleware/ratelimit": ["sync", "sync/atomic"]}, "stub_tests": ["middleware/ratelimit"],
+                    "race_pass": True, "gomaxprocs": 1, "budget_s": {"quick": 40, "thorough": 240}},
     },
 }
